@@ -61,4 +61,8 @@ def units(ctx):
     from contracts import utils as _ut
     from vlib.pyvc.unit import contract_unit as _cu2
     us += [_cu2(c, world_setup=_ut.setup) for c in _ut.predicate_contracts()]
+    from contracts import colls3
+    us += [contract_unit(c, world_setup=colls3.setup)
+           for c in colls3.predicate_contracts() + colls3.wrapper_contracts()
+           if 'C13' in c.serves]
     return us
